@@ -815,7 +815,11 @@ class VcsGitStream(Stream):
             extra, _, r = self._seen[json.dumps(case, sort_keys=True)]
             ign, tracked = set(r["ignored"]), r["tracked"]
 
-            if extra and all((x in ign or any(x.startswith(i + "/") for i in ign)) and in_unignored_untracked_dir(x, ign, tracked) for x in extra):
+            # (paths are relative to the project root; when the root is the sub-directory src/ of the work tree, the directory without
+            # a tracked file may be the root itself: judge the shape on paths relative to the top)
+            pre = "src/" if case.get("rootat") == "subdir" else ""
+            if extra and all((x in ign or any(x.startswith(i + "/") for i in ign)) and
+                             in_unignored_untracked_dir(pre + x, {pre + i for i in ign}, [pre + t for t in tracked]) for x in extra):
                 return "c03-git-ignored-in-untracked-dir"
         return None
 
